@@ -437,9 +437,11 @@ class Session:
         if am:
             self.viol("C05.args-stored", {"C05", "C01"}, step, rep, "%s: stored args differ: %s" % (what, am[:2]))
         # C01: assess on own choices and args
+        assess_s = None
         if rep.id == 0 or self.assess_all:
-            self.check_assess(tr, step, rep, what, lp, staged)
+            assess_s = self.check_assess(tr, step, rep, what, lp, staged)
         rec = Rec(tr, 0, args, x, lp, vis, rv)
+        rec.assess_s = assess_s
         rec.calls = ctx.calls
         return rec
 
@@ -451,8 +453,8 @@ class Session:
             else:
                 s, r = gf.assess(tr.get_choices(), tr.get_args())
         except Exception as e:
-            self.viol("C01.assess-crash", {"C01"} | self.pp, step, rep, "%s: assess(trace.get_choices(), trace.get_args()) raised %s: %s" % (what, type(e).__name__, str(e)[:300]), "crash")
-            return
+            self.viol("C01.assess-crash", {"C01"} | self.pp | ({"C23"} if staged else set()), step, rep, "%s: assess(trace.get_choices(), trace.get_args()) raised %s: %s" % (what, type(e).__name__, str(e)[:300]), "crash")
+            return None
         if not obs.close(s, tr.get_score()):
             self.viol("C01.assess-score", {"C01"} | self.pp, step, rep, "%s: assess score %s vs trace score %s" % (what, np.asarray(s), np.asarray(tr.get_score())))
         if not obs.close(s, lp):
@@ -460,6 +462,7 @@ class Session:
         mm = cmp_retvals(r, tr.get_retval())
         if mm:
             self.viol("C01.assess-retval", {"C01"} | self.pp, step, rep, "%s: assess retval vs trace retval: %s" % (what, mm[:2]))
+        return np.asarray(s)
 
     # ---- staging wrapper
     def run_staged(self, rep, perts, fn, key_n, *dyn):
@@ -1529,7 +1532,7 @@ class Session:
                     continue
                 if oa != "ok":
                     continue
-                for fld in ("score", "w", "p"):
+                for fld in ("score", "w", "p", "assess"):
                     if fld in a and fld in b and not obs.close(a[fld], b[fld]):
                         self.viol("C23.%s-diverges" % fld, props, i, rep, "step %d (%s): %s %s (plain) vs %s under %s" % (i, a.get("op"), fld, a[fld], b[fld], perts), "diverge")
                 if "x" in a and "x" in b and not same_x(a["x"], b["x"], bits=False):
@@ -1662,11 +1665,14 @@ def _norm_ret(v, flag=None):
 
 
 def trace_event(rec):
-    return {
+    ev = {
         "x": rec.x,
         "score": np.asarray(rec.tr.get_score()),
         "ret": rec.tr.get_retval(),
     }
+    if getattr(rec, "assess_s", None) is not None:
+        ev["assess"] = rec.assess_s  # assess of the trace's own choices, eager or jitted like the step
+    return ev
 
 
 def execute(script, only_replicas=None):
